@@ -273,7 +273,7 @@ def symptom(p, r):
 
 def run_job(job):
     stats = {"evaluations": 0, "nontrivial": [], "states": [], "transitions": [], "ops": 0,
-             "faults_fired": {}, "by_config": {}, "by_shape": {}}
+             "faults_fired": {}, "by_config": {}, "by_shape": {}, "env": {}}
     violations = []
     nviol = 0
     dig = 0
@@ -286,6 +286,11 @@ def run_job(job):
         cfg = "fault-injecting" if job["faulty"] else "fault-free"
         stats["by_config"][cfg] = stats["by_config"].get(cfg, 0) + 1
         stats["by_shape"][scen["shape"]] = stats["by_shape"].get(scen["shape"], 0) + 1
+        for flag in ("ghost", "second"):
+            if scen.get(flag):
+                stats["env"][flag] = stats["env"].get(flag, 0) + 1
+        if any("flood" in c for c in scen["history"]):
+            stats["env"]["flood"] = stats["env"].get("flood", 0) + 1
         stats["states"].extend(r["states"])
         stats["transitions"].extend(r["transitions"])
         if r["fired"]:
@@ -387,9 +392,13 @@ def coverage(agg):
         "histories_by_configuration": agg.get("by_config", {}),
         "histories_by_shape": agg.get("by_shape", {}),
         "faults_fired_by_kind": agg.get("faults_fired", {}),
+        "environment_disturbances": dict(agg.get("env", {}),
+                                         untouched_image_references=int(agg.get("evaluations", 0))),
         "state_abstraction": "hash of key sets of the MultiTypeMap, its remembered errors and each per-position TypeMap",
         "real_components": ["ovld (all of it)"],
         "simulated_components": ["call history", "crash step / failing hook invocation in one call",
-                                 "set iteration order (canonical)"],
+                                 "set iteration order (canonical)",
+                                 "process history (reference from an untouched forked image)",
+                                 "address reuse (ghost world that dies before the world under test)"],
         "exhaustive": False,
     }
